@@ -2,6 +2,6 @@
 # seedrun.sh <patch.diff> <PID> [PID...] : run the correspondence of the given properties against a patched copy of /repo (dev aid)
 P=$1; shift
 D=/dev/shm/seed_$$
-rm -rf $D && mkdir -p $D && cp -r /repo/vector_quantize_pytorch $D/ && (cd $D && patch -p1 -s < $P) || { rm -rf $D; exit 1; }
+rm -rf $D && mkdir -p $D && (git -C /repo archive HEAD vector_quantize_pytorch | tar -x -C $D) && (cd $D && patch -p1 -s < $P) || { rm -rf $D; exit 1; }
 for pid in "$@"; do echo "== $pid"; VQ_REPO=$D /verif/dev.sh $pid 2>&1 | grep -v auto_act | tail -${SEEDTAIL:-8}; done
 rm -rf $D
